@@ -6,6 +6,7 @@ import (
 	"strings"
 
 	jwt "github.com/nats-io/jwt/v2"
+	v1 "github.com/nats-io/jwt/v2/v1compat"
 	"github.com/nats-io/nkeys"
 )
 
@@ -146,6 +147,42 @@ func runC15(c *Ctx) {
 		w.add("(CRFormat "+coqOptStr(ok, k)+" "+coqStr(tok)+" "+coqStr(string(useed))+" "+coqOptStr(err == nil, string(out))+")", map[string]interface{}{"kind": kind, "token": tok})
 		distinct["decorate"+kind] = true
 		c.count("decorated")
+	}
+	// tokens that are NOT user tokens but whose free-text kind looks like "user" (other case, long s, blanks): refused by
+	// both libraries; and the bundled v1 library refuses every non-user kind too
+	{
+		useed, _ := kr.by["user"].kp.Seed()
+		for _, ty := range []string{"USER", "User", "uSeR", "u\u017fer", "user ", " user", "users", "use", "u\u0073er\u200b"} {
+			g1 := v1.NewGenericClaims(kr.by["account"].pub)
+			g1.Type = v1.ClaimType(ty)
+			t1, err := g1.Encode(kr.by["account"].kp)
+			if err != nil {
+				continue
+			}
+			c.sum.Evaluations++
+			c.sum.ImplChecks++
+			if out, err := v1.FormatUserConfig(t1, useed); err == nil {
+				c.violation("C15: the bundled v1 FormatUserConfig accepts a token that is not a user token", map[string]interface{}{"kind_text": ty, "output": string(out)})
+			}
+			if out, err := jwt.FormatUserConfig(t1, useed); err == nil {
+				c.violation("C15: FormatUserConfig accepts a (version-1) token that is not a user token", map[string]interface{}{"kind_text": ty, "output": string(out)})
+			}
+			g2 := jwt.NewGenericClaims(kr.by["account"].pub)
+			g2.Data["type"] = ty
+			if t2, err := g2.Encode(kr.by["account"].kp); err == nil {
+				if out, err := jwt.FormatUserConfig(t2, useed); err == nil {
+					c.violation("C15: FormatUserConfig accepts a generic token whose kind text resembles user", map[string]interface{}{"kind_text": ty, "output": string(out)})
+				}
+			}
+			c.count("kind_text_resembling_user")
+		}
+		for kind, tok := range validV1Tokens(kr) {
+			c.sum.ImplChecks++
+			_, err := v1.FormatUserConfig(tok, useed)
+			if (err == nil) != strings.Contains(kind, "user") {
+				c.violation("C15: the bundled v1 FormatUserConfig accepts a non-user token or refuses a user token", map[string]interface{}{"kind": kind})
+			}
+		}
 	}
 	// outputs must stay what they were after later calls (no shared buffers): decorate everything first, parse afterwards
 	type kept struct {
